@@ -391,4 +391,4 @@ def run_case(case: dict[str, Any]) -> Outcome:
 
 
 def main(chk: Check) -> None:
-    chk.explore("requests", cases, run_case, quick=3000, thorough=48000)
+    chk.explore("requests", cases, run_case, quick=9000, thorough=48000)
